@@ -148,23 +148,24 @@ deriving Inhabited, DecidableEq, Repr
 
 @[inline] def tableStep (size : Nat) : Nat := (size >>> 1) + (size >>> 3) + 3
 
-/-- symbol spreading + state assignment shared by FSE_buildDTable_internal and ZSTD_buildFSETable_body
-(the generic branch; `fast_spread_eq_slow` states that the two-stage fast branch lays down the same symbols) -/
-def buildCells (norm : Array Int) (tableLog : Nat) : Array Cell := Id.run do
+/-- number of table cells owned by symbol `s`: its normalised count, 1 for a "less than one" count (-1), 0 for absent (or out-of-range) symbols -/
+@[inline] def cnt (norm : Array Int) (s : Nat) : Nat := if norm[s]! == -1 then 1 else norm[s]!.toNat
+
+/-- symbol spreading shared by FSE_buildDTable_internal (fse_decompress.c) and ZSTD_buildFSETable_body (zstd_decompress_block.c)
+(the generic branch; `fast_spread_eq_slow` states that the two-stage fast branch lays down the same symbols):
+the symbol held by each of the `1 <<< tableLog` positions.  Low-probability symbols (`norm = -1`) go to the top of the table,
+the others are laid down by the `step` walk that skips the low-probability area. -/
+def spread (norm : Array Int) (tableLog : Nat) : Array Nat := Id.run do
   let size := 1 <<< tableLog
   let mask := size - 1
   let step := tableStep size
   let mut syms : Array Nat := Array.replicate size 0
-  let mut next : Array Nat := Array.replicate norm.size 0
   let mut high := size - 1
   for s in [0:norm.size] do
     let c := norm[s]!
     if c == -1 then
       syms := syms.set! high s
       high := high - 1
-      next := next.set! s 1
-    else
-      next := next.set! s c.toNat
   let mut pos := 0
   for s in [0:norm.size] do
     let c := norm[s]!
@@ -176,14 +177,25 @@ def buildCells (norm : Array Int) (tableLog : Nat) : Array Cell := Id.run do
         for _ in [0:size] do
           if pos ≤ high then break
           pos := (pos + step) &&& mask
-  let mut cells : Array Cell := Array.replicate size default
-  for u in [0:size] do
-    let sym := syms[u]!
-    let ns := next[sym]!
-    next := next.set! sym (ns + 1)
-    let nb := tableLog - highbit ns
-    cells := cells.set! u { sym := sym, nbBits := nb, newState := (ns <<< nb) - size }
-  return cells
+  return syms
+
+/-- `symbolNext[s]` at the start of the state-assignment loop: `normalizedCounter[s]`, 1 for -1 -/
+def nextInit (norm : Array Int) : Array Nat := norm.map fun c => if c == -1 then 1 else c.toNat
+
+/-- one iteration of the state-assignment loop (`for u < tableSize`): `nextState = symbolNext[symbol]++`,
+`nbBits = tableLog - highbit(nextState)`, `newState = (nextState << nbBits) - tableSize`; the cell of position `u` is pushed -/
+@[inline] def cellStep (tableLog : Nat) (st : Array Nat × Array Cell) (sym : Nat) : Array Nat × Array Cell :=
+  let ns := st.1[sym]!
+  let nb := tableLog - highbit ns
+  (st.1.set! sym (ns + 1), st.2.push { sym := sym, nbBits := nb, newState := (ns <<< nb) - (1 <<< tableLog) })
+
+/-- state assignment of FSE_buildDTable_internal / ZSTD_buildFSETable_body given the symbol of every position:
+a left-to-right pass over the positions carrying the `symbolNext` counters -/
+def cellsOf (syms : Array Nat) (norm : Array Int) (tableLog : Nat) : Array Cell :=
+  (syms.foldl (cellStep tableLog) (nextInit norm, Array.mkEmpty syms.size)).2
+
+/-- FSE_buildDTable_internal / ZSTD_buildFSETable_body: symbol spreading, then state assignment -/
+def buildCells (norm : Array Int) (tableLog : Nat) : Array Cell := cellsOf (spread norm tableLog) norm tableLog
 
 /-- FSE_decompress_wksp for Huffman weights: header + two interleaved states; at most `maxOut` symbols -/
 def decompressWeights (src : Bytes) (start len : Nat) (maxOut : Nat) : R (Array Nat) := do
